@@ -2,7 +2,7 @@
 import solvercheck, framework
 PID = "C01"
 MODULE = "MysticVerif.Props.Solve"
-THEOREMS = ["MysticVerif.C01.de_member_inv", "MysticVerif.C01.de_best_inv", "MysticVerif.C01.de_best_le_members", "MysticVerif.C01.de2_step_eq_de1_step", "MysticVerif.C01.de_best_le_initial_guess", "MysticVerif.C01.nm_member_inv", "MysticVerif.C01.nm_inv_reachable", "MysticVerif.C01.nm_best_evaluated_of_fixed", "MysticVerif.C01.nm_best_le_members", "MysticVerif.C01.nm_best_not_evaluated_witness", "MysticVerif.C01.pw_best_inv", "MysticVerif.C01.pw_best_inv_gen0", "MysticVerif.C01.pw_best_le_initial_guess", "MysticVerif.SolveProps.solve_de_inv", "MysticVerif.SolveProps.solve_de_best", "MysticVerif.SolveProps.solve_state_is_open_loop", "MysticVerif.C01.ensemble_best_inherits", "MysticVerif.C01.ensemble_of_de_best"]
+THEOREMS = ["MysticVerif.C01.de_member_inv", "MysticVerif.C01.de_best_inv", "MysticVerif.C01.de_best_le_members", "MysticVerif.C01.de2_step_eq_de1_step", "MysticVerif.C01.de_best_le_initial_guess", "MysticVerif.C01.nm_member_inv", "MysticVerif.C01.nm_inv_reachable", "MysticVerif.C01.nm_best_evaluated_of_fixed", "MysticVerif.C01.nm_best_le_members", "MysticVerif.C01.nm_best_not_evaluated_witness", "MysticVerif.C01.pw_best_inv", "MysticVerif.C01.pw_best_inv_gen0", "MysticVerif.C01.pw_best_le_initial_guess", "MysticVerif.SolveProps.solve_de_inv", "MysticVerif.SolveProps.solve_de_best", "MysticVerif.SolveProps.solve_state_is_open_loop", "MysticVerif.C01.ensemble_best_inherits", "MysticVerif.C01.ensemble_of_de_best", "MysticVerif.SolveProps.solve_nm_inv", "MysticVerif.SolveProps.solve_nm_members", "MysticVerif.SolveProps.solve_pw_inv", "MysticVerif.SolveProps.solve_pw_best"]
 
 
 def run_shard(pid, seed, shard, ncases, tier, extra):
@@ -14,7 +14,7 @@ def main(tier, seed):
 
 
 RULE_EXTRA = 'wrapper stream: fmin/fmin_powell/diffev/diffev2 with full_output=1 (returned x evaluated, fval = cost+penalty).'
-TRUSTED_EXTRA = ["Powell: the Brent line search is an oracle of the model (which points it evaluates, which one it returns), recorded from the real run; the contract 'never worse than the start' (LsMono) is checked on every recorded search; everything else of PowellDirectionalSolver._Step is computed by the model and replayed bit for bit (histogram model:pw, pw-iterations, pw-extrapolation-searches)", 'ensembles: the reported best is a member\'s (theorems ensemble_best_inherits / ensemble_of_de_best on top of C09.update_best_min); member creation and the map are monitored (C09)']
+TRUSTED_EXTRA = ["Powell: in the `pw` stream the Brent line search is an oracle of the model (which points it evaluates, which one it returns), recorded from the real run, and the contract 'never worse than the start' (LsMono) is checked on every recorded search; in the `pwb` and `solve` streams the search itself is computed by the Brent model (Model/Brent.lean) for which LsMono is a theorem (Props/C04Brent.lean); everything else of PowellDirectionalSolver._Step is computed by the model and replayed bit for bit (histogram model:pw, pw-iterations, pw-extrapolation-searches)", 'ensembles: the reported best is a member\'s (theorems ensemble_best_inherits / ensemble_of_de_best on top of C09.update_best_min); member creation and the map are monitored (C09)']
 
 
 def replay(path):
